@@ -550,10 +550,28 @@ class BasicContiguousVector<cntgs::Options<Option...>, Parameter...>
     }
 
     template <class... TOption>
+    constexpr bool has_equal_fixed_sizes(
+        const cntgs::BasicContiguousVector<cntgs::Options<TOption...>, Parameter...>& other) const noexcept
+    {
+        if constexpr (ListTraits::CONTIGUOUS_FIXED_SIZE_COUNT == 0)
+        {
+            return true;
+        }
+        else
+        {
+            return locator_.fixed_sizes().array_ == other.locator_.fixed_sizes().array_;
+        }
+    }
+
+    template <class... TOption>
     constexpr auto equal(const cntgs::BasicContiguousVector<cntgs::Options<TOption...>, Parameter...>& other) const
     {
         if constexpr (ListTraits::IS_EQUALITY_MEMCMPABLE && ElementTraits::IS_PADDING_FREE)
         {
+            if (!has_equal_fixed_sizes(other))
+            {
+                return std::equal(begin(), end(), other.begin(), other.end());
+            }
             if (empty())
             {
                 return other.empty();
@@ -576,6 +594,10 @@ class BasicContiguousVector<cntgs::Options<Option...>, Parameter...>
         if constexpr (ListTraits::IS_LEXICOGRAPHICAL_MEMCMPABLE && ListTraits::IS_FIXED_SIZE_OR_PLAIN &&
                       ElementTraits::IS_PADDING_FREE)
         {
+            if (!has_equal_fixed_sizes(other))
+            {
+                return std::lexicographical_compare(begin(), end(), other.begin(), other.end());
+            }
             if (empty())
             {
                 return !other.empty();
